@@ -201,7 +201,7 @@ PATHS = [('L_diagonal', 'C_arch', 'A_ellipse_rot30'), ('Q_generic',), ('C_elevat
 
 def check_path(word, acc):
     segs = [AB.make(n, shift=complex(3 * i, -2 * i)) for i, n in enumerate(word)]
-    p = Path(*segs)
+    p = AB.derive_path(Path(*segs))
     bs = [s.bbox() for s in segs]
     exp = (min(b[0] for b in bs), max(b[1] for b in bs), min(b[2] for b in bs), max(b[3] for b in bs))
     r = outcome(lambda: tuple(p.bbox()))
@@ -229,7 +229,7 @@ def check_long(n, kinds, variant, acc):
         k = n // 2
         far = segs[k].start + complex(1000.0, 300.0)
         segs[k] = Line(segs[k].start, far)
-    p = Path(*segs)
+    p = AB.derive_path(Path(*segs))
     exp = LP.union_bbox(segs)
     r = outcome(lambda: tuple(p.bbox()))
     case = {'what': 'long', 'n': n, 'kinds': kinds, 'variant': variant}
@@ -248,6 +248,7 @@ def shards(tier, seed):
     out += [{'what': 'arcs', 'k': k} for k in range(8)]
     out += [{'what': 'libarcs'}, {'what': 'paths'}, {'what': 'int_beziers'}, {'what': 'negative_radius_arcs'}]
     out += AB.provenance_shards(out, tier, lambda d: d['what'] in ('bezier', 'libarcs'))
+    out += AB.provenance_shards(out, tier, lambda d: d['what'] in ('paths', 'long'), key='pprov')
     if tier == 'thorough':
         out += [{'what': 'lattice', 'part': [i, 32]} for i in range(32)]
     return out
